@@ -78,6 +78,11 @@ func cmdCheck(args []string) int {
 	if *tier == "thorough" {
 		crossCheck = true
 	}
+	for _, k := range loadKnown(*verif).Findings {
+		if k.Property == prop && k.Status == "known" {
+			noRetry[k.Obligation] = true
+		}
+	}
 	t0 := time.Now()
 	res, err := verify(*repo, *verif, prop, *tier, "", *dump, nil)
 	if err != nil {
